@@ -97,6 +97,14 @@ Definition mk_warnings (bom : bool) (fdl : option nat) (finfo : list (nat * nat)
 
 Definition quotes_odd (row : str) : bool := Nat.odd (count_ch QT row).
 
+(* the list returned by get_warnings(), as data, in the order of the Python port: BOM, defective line, field counts *)
+Inductive warning_item := WBom | WDefective (nl : nat) | WFields (r1 n1 r2 n2 : nat).
+Definition w_bom_items (w : warnings) : list warning_item := if w_bom w then [WBom] else [].
+Definition w_def_items (w : warnings) : list warning_item := match w_defective w with Some n => [WDefective n] | None => [] end.
+Definition w_fld_items (w : warnings) : list warning_item :=
+  match w_fields w with Some (r1, n1, r2, n2) => [WFields r1 n1 r2 n2] | None => [] end.
+Definition py_warning_list (w : warnings) : list warning_item := w_bom_items w ++ w_def_items w ++ w_fld_items w.
+
 (* ------------------------------------------------------------------ the iterator, generic in the raw line source *)
 
 Section Iterator.
